@@ -21,6 +21,7 @@ type pollCtx struct {
 	fired     atomic.Bool
 	pollsPost atomic.Int64 // polls after (not counting) the first done answer
 	onPoll    func()       // optional hook (scheduler yield)
+	onFire    func()       // optional: runs when the first "done" answer is given (cancels a real parent)
 }
 
 func newPollCtx(parent context.Context, k int64, err error) *pollCtx {
@@ -42,6 +43,9 @@ func (c *pollCtx) Done() <-chan struct{} {
 		return closedChan
 	}
 	if c.k >= 0 && n >= c.k {
+		if c.onFire != nil {
+			c.onFire()
+		}
 		c.fired.Store(true)
 		return closedChan
 	}
